@@ -17,7 +17,10 @@ fn when_flushed_step(max_w: usize, twin: u8) {
     let pre = any_pre(3, max_w);
     let (tx, rx) = build(&pre);
 
-    tx.when_flushed(|| unsafe { RAN[4] += 1 });
+    tx.when_flushed(|| {
+        assert_unlocked();
+        unsafe { RAN[4] += 1 }
+    });
 
     let post = v::snapshot(&tx);
     let q = *v::pending(&tx);
@@ -72,7 +75,10 @@ fn when_empty_step(max_w: usize, twin: u8) {
     let pre = any_pre(3, max_w);
     let (tx, rx) = build(&pre);
 
-    tx.when_empty(|| unsafe { RAN[4] += 1 });
+    tx.when_empty(|| {
+        assert_unlocked();
+        unsafe { RAN[4] += 1 }
+    });
 
     let post = v::snapshot(&tx);
     let q = *v::pending(&tx);
